@@ -11,7 +11,7 @@ package wallet
 //@ func unblindSignature
 //@   tags C10
 //@   safety C06 C10
-//@   requires r != nil && key != nil
+//@   requires @nonnil [C06,C10] r != nil && key != nil
 //@   ensures @ok [C10] r1 == nil <==> hexok(C_str) && pt.parseok(hexdec(C_str))
 //@   ensures @unblind [C10] r1 == nil ==> r0 == hexenc(pt.ser(padd(pt.parse(hexdec(C_str)), smul(sneg(sc.of(r.Key)), pk.pt(*key)))))
 
@@ -40,7 +40,7 @@ package wallet
 //@ func generateDeterministicSecret
 //@   tags C11 C08 C19
 //@   safety C06 C11
-//@   requires counter < 2147483648
+//@   requires @hardened [C11] counter < 2147483648
 //@   ensures @nut13 [C11,C08] r2 == nil ==> r1 != nil && r0 == hexenc(sc.ser(hd.privsc(hd.derive(hd.derive(path, 2147483648 + counter), 0)))) && sc.of(r1.Key) == hd.privsc(hd.derive(hd.derive(path, 2147483648 + counter), 1))
 //@ func generateRandomSecret
 //@   trusted
@@ -103,3 +103,11 @@ package wallet
 //@   requires w != nil && w.db != nil && w.mints != nil && winv()
 //@   calls (*Wallet).createBlindedMessages asserts @fresh [C19] counter == nil || *counter >= wal.signedupto[keysetId]
 //@   ensures @past [C19] r1 == nil ==> winv()
+
+// Restore: whenever the scan position is saved, the stored counter becomes
+// exactly the scan position (counter of the first output not yet looked at).
+//@ func Restore
+//@   tags C19
+//@   calls (storage.WalletDB).IncrementKeysetCounter asserts @scanpos [C19] (wdb.counter[keysetId] + num) % 4294967296 == counter
+//@   calls (storage.WalletDB).SaveKeyset asserts @fromzero [C19] ks.Counter == 0
+//@   loop 3 invariant savedCounter == wdb.counter[keyset.Id] % 4294967296
